@@ -7,7 +7,7 @@ reg("C14", [mon("rt", "mon_sinks"), miri("rt", "mon_sinks", shards_quick=1, shar
               "+ std-iterator reference model over the recorded history; Miri over the same harness (demux_var unsafe)",
     text="Every sinktools adaptor (map, filter, filter_map, inspect, flat_map, flatten, unzip, for_each, try_for_each, "
          "send_iter, send_stream, demux_map, demux_map_lazy, demux_var with 2/3 sinks, LazySink, LazySource, "
-         "LazySinkSource and four SinkBuild chains) is run on all item sequences of length <= 4 x every placement of "
+         "LazySinkSource and five SinkBuild chains) is run on all item sequences of length <= 4 x every placement of "
          "<= 2 (quick) / <= 3 (thorough) Pending answers per inner sink and per phase (ready/flush/close), as the full "
          "product across the 2-3 inner sinks of unzip/demux, with sticky and fickle sinks, one injected error at every "
          "(sink, phase, call) position, lazy init futures with scripted Pendings / error outcomes and both halves of "
